@@ -14,7 +14,7 @@ func init() {
 		skeletonExplain(c, "C02 (the mock implements the interface with identical signatures): in every skeleton — the self-check line plays no role in the rule — go/types' MissingMethod(*Mock, I) is nil against an interface declared independently of the template from the same abstract shapes (for generic mocks both are instantiated with the mock's own type parameters, so the verdict holds for every type-argument list satisfying the constraints); every method has exactly one <M>Func field whose signature is identical to the method's, variadic-ness included.")
 		c.Run.Floor("K-IMPL/assignable", 1)
 		c.Run.Floor("K-IMPL/func-field", 2)
-		c.RunSkeletons(SkelOpts{Rules: []string{"K-IMPL", "K-MSET/method", "K-GENERIC", "G-DATA/methods", "G-DATA/params", "G-DATA/results", "G-DATA/typeparams"}})
+		c.RunSkeletons(SkelOpts{Rules: []string{"K-IMPL", "K-MSET/method", "K-GENERIC", "G-DATA/methods", "G-DATA/params", "G-DATA/results", "G-DATA/typeparams", "G-MOCK/accepts"}})
 		genMap(c)
 	})
 	register("C09", "other", func(c *Ctx) {
@@ -48,7 +48,7 @@ func init() {
 	register("C20", "other", func(c *Ctx) {
 		skeletonExplain(c, "C20 (one mock per requested interface, named as requested, independent): in every skeleton with 1..2 (thorough: 3) mocks the top-level type declarations are exactly the mock names in argument order; the generator side (argument parsing table, index-preserving construction of the mock list, fresh method scope per method, no package-level state) is checked on the generator's source.")
 		c.Run.Floor("K-DECLS/types", 1)
-		c.RunSkeletons(SkelOpts{Rules: []string{"K-DECLS/types", "K-DECLS/extra", "K-MSET/unexpected", "G-DATA/mocks", "G-DATA/methods/count", "G-SCOPE", "G-MOCK/lookups", "G-MOCK/infrastructure-imports-last"}})
+		c.RunSkeletons(SkelOpts{Rules: []string{"K-DECLS/types", "K-DECLS/extra", "K-MSET/unexpected", "G-DATA/mocks", "G-DATA/methods/count", "G-SCOPE", "G-MOCK/lookups", "G-MOCK/infrastructure-imports-last", "G-MOCK/accepts"}})
 		genMocks(c)
 	})
 	register("C01", "other", func(c *Ctx) {
